@@ -218,7 +218,7 @@ def forked(ctx, fn, *args):
 # ------------------------------------------------------------------------------- shards
 def shards(tier, seed):
     out = []
-    K = 30 if tier == "quick" else 600
+    K = 60 if tier == "quick" else 600
     parts = 10 if tier == "quick" else 16
     for i in range(parts):
         out.append({"name": "histories-%d" % i, "kind": "hist", "k": K // parts, "calls": [200, 600] if tier == "quick" else [200, 2000],
